@@ -8,6 +8,7 @@ import (
 	"flag"
 	"fmt"
 	"os"
+	"runtime/pprof"
 	"sort"
 	"strconv"
 	"strings"
@@ -108,7 +109,13 @@ func main() {
 	flag.BoolVar(&noMerge, "nomerge", false, "disable state merging")
 	claimDir := flag.String("claimdir", "", "dynamic work sharing: claim scenarios by creating files here")
 	boundOv := flag.Int("bound", -1, "override the deviation bound of every scenario")
+	cpuprof := flag.String("cpuprofile", "", "write a CPU profile")
 	flag.Parse()
+	if *cpuprof != "" {
+		f, _ := os.Create(*cpuprof)
+		pprof.StartCPUProfile(f)
+		defer pprof.StopCPUProfile()
+	}
 
 	p := registry[*prop]
 	if p == nil {
